@@ -5,6 +5,10 @@ R = os.path.dirname(os.path.dirname(os.path.abspath(__file__)))
 props = [json.loads(l) for l in open(os.path.join(R, "properties.jsonl"))]
 table = json.load(open(os.path.join(R, "props.json")))
 na = json.load(open(os.path.join(R, "na.json"))) if os.path.exists(os.path.join(R, "na.json")) else {}
+def engs(v):
+    return [p["engine"] for p in v["parts"]] if "parts" in v else [v["engine"]]
+
+
 commits = subprocess.run(["git", "-C", "/repo", "log", "--format=%H %s", "ca4df55..HEAD"], capture_output=True, text=True).stdout.strip().splitlines()
 hook_commits = [c.split()[0] for c in commits if "verif hook" in c.lower()]
 m = {
@@ -18,10 +22,10 @@ m = {
         "add_only": True,
     },
     "engines": [
-        {"name": "seq", "path": "harness/src/seq.rs", "kind_free_text": "proptest-driven single-handle histories over generated programs; reference interpreter + log oracles", "serves_properties": [k for k, v in table.items() if "seq" in v["engine"]]},
-        {"name": "coop", "path": "harness/src/coop.rs", "kind_free_text": "real threads under a harness-owned, tape-generated schedule (baton scheduler)", "serves_properties": [k for k, v in table.items() if "coop" in v["engine"]]},
-        {"name": "shut", "path": "harness/src/shut.rs", "kind_free_text": "shuttle (random/PCT schedulers) over salsa's shuttle build", "serves_properties": [k for k, v in table.items() if "shut" in v["engine"]]},
-        {"name": "fuzz", "path": "fuzz/", "kind_free_text": "cargo-fuzz / libFuzzer + ASan over the same tape decoders", "serves_properties": [k for k, v in table.items() if "fuzz" in v["engine"]]},
+        {"name": "seq", "path": "harness/src/seq.rs", "kind_free_text": "proptest-driven single-handle histories over generated programs; reference interpreter + log oracles", "serves_properties": [k for k, v in table.items() if "seq" in engs(v)]},
+        {"name": "coop", "path": "harness/src/coop.rs", "kind_free_text": "real threads under a harness-owned, tape-generated schedule (baton scheduler)", "serves_properties": [k for k, v in table.items() if "coop" in engs(v)]},
+        {"name": "shut", "path": "harness/src/shut.rs", "kind_free_text": "shuttle (random/PCT schedulers) over salsa's shuttle build", "serves_properties": [k for k, v in table.items() if "shut" in engs(v)]},
+        {"name": "fuzz", "path": "fuzz/", "kind_free_text": "cargo-fuzz / libFuzzer + ASan over the same tape decoders", "serves_properties": [k for k, v in table.items() if "fuzz" in engs(v)]},
     ],
     "checks": [],
     "not_applicable": [],
@@ -37,7 +41,7 @@ for p in props:
             "thorough_cmd": f"./check {pid} --tier thorough",
             "evidence_file": f"/verif/evidence/{pid}.json",
             "replay_cmd_template": f"./check {pid} --replay {{path}}",
-            "engine": t["engine"],
+            "engine": "+".join(engs(t)),
             "level_claimed": {"category": t["level"], "text": t.get("level_text", "generated-input search against an explicit oracle; no counterexample in the explored, measured space"), "design_ref": f"DESIGN.md §4 {pid}"},
             "level_note": t.get("level_note", "; ".join(t.get("assumptions", []))),
             "technique": t.get("technique", "property-based testing (proptest tape generator + reference-model oracle)"),
